@@ -336,9 +336,9 @@ def rate_cases(draw, cls=None, cstr=False, max_subs=8, max_rxns=8):
     if cstr:
         which = draw(ints(0, 7))
         part = sorted(set(k for r in sysd["rxns"] for k in rxn_keys(r)))
-        if which == 7:
+        if which >= 6:
             fkeys = list(sysd["subs"])                          # what get_odesys(cstr=True) does
-        elif which == 6:
+        elif which == 5:
             fkeys = pick_distinct(draw, sorted(sysd["subs"]), 1, len(sysd["subs"]))
         else:                                                   # feeds to species that take part in some reaction
             fkeys = pick_distinct(draw, part, 1, len(part))
